@@ -43,6 +43,8 @@ def gen_cases(ctx):
         c["phi"] = float(rng.choice([0.3, 0.7, 0.5, rng.uniform(0.05, 0.95), 1e-3, 0.999]))
         c["params"]["gbm_mobility"] = float(rng.choice([125.0, 200.0, 50.0]))
         c["strain"] = float(rng.choice([0.5, 1.0, 2.0]))
+        if rng.random() < 0.3:
+            c["regime2"] = int(rng.choice([0, 7, 4, 6]))   # regime switch inside the history (through get_regime)
         yield c
 
 
